@@ -351,7 +351,7 @@ class RankedVoteValidator:
         total_votes = 0
         all_candidates = set()
         for rank_i, item in enumerate(vote):
-            if isinstance(item, collections.abc.Set):
+            if isinstance(item, frozenset):
                 self.rank_vote_count_checkers[rank_i+1].check(len(item))
                 all_candidates.update(item)
                 total_votes += len(item)
